@@ -350,6 +350,40 @@ _mk_pref("standard", ColorSystem.STANDARD, STANDARD_PALETTE, ("quick", "thorough
 _mk_pref("windows", ColorSystem.WINDOWS, WINDOWS_PALETTE, ("quick", "thorough"), 1500)
 
 
+# --- the property itself, red component concretised (P over r, S over g and b) ---------------------------------------------
+# With r concrete every key is a quadratic in g and b with constant coefficients, which z3 decides in seconds where the query over
+# all three components returns `unknown` (0.6, seed C18-3).  No decomposition: the assertion is "the returned entry is minimal".
+def _mk_direct(name, system, ctype, pal, lo, hi, tiers, timeout):
+    @symx("C18-b-direct-%s-r%03d-%03d" % (name, lo, hi), tiers=tiers, timeout=timeout, kind="P", functions=F_MATCH,
+          opts=dict({"query_timeout_ms": 60000}, **({"bv": 64} if __import__("os").environ.get("VF_C18_DIRECT_BV") else {})),
+          bounds="red in %d..%d enumerated by the solver (one execution per value), green and blue symbolic over 0..255: the entry "
+                 "returned by Color.downgrade for truecolor (r,g,b) is in 0..15, of the target type, and no other of the 16 palette "
+                 "entries is strictly nearer under the documented weighted metric (asserted directly, exact integers / rationals)"
+                 % (lo, hi),
+          outside="nothing for these red values; the other red values are the sibling obligations",
+          stubs=["L2: rich.palette.sqrt replaced by identity", "S2", "S3"])
+    def h(e):
+        r = int(e.mk("r", lo, hi))
+        g, b = e.mk("g", 0, 255), e.mk("b", 0, 255)
+        c = Color("c", ColorType.TRUECOLOR, None, ColorTriplet(r, g, b))
+        with _sqrt_stub():
+            out = _downgrade(c, system)
+        n = out.number
+        mine = [_dist(r, g, b, pal._colors[j]) for j in range(16)]
+        dn = _select(e, n, mine)
+        ok = sym_and(out.type == ctype, out.triplet is None, n >= 0, n < 16)
+        for j in range(16):
+            ok = sym_and(ok, dn <= mine[j])
+        return ok
+    return h
+
+
+for _nm, _sys, _ct, _pal in (("standard", ColorSystem.STANDARD, ColorType.STANDARD, STANDARD_PALETTE),
+                             ("windows", ColorSystem.WINDOWS, ColorType.WINDOWS, WINDOWS_PALETTE)):
+    for _lo in range(0, 256, 16):
+        _mk_direct(_nm, _sys, _ct, _pal, _lo, _lo + 15, ("quick", "thorough"), 1800)
+
+
 # --- conversion histories with the real caches (P, native): converted colours converted again; neighbouring colours ---------
 def _is_min(pal, rgb, number) -> bool:
     ds = [_dist(rgb[0], rgb[1], rgb[2], tuple(pal._colors[j])) for j in range(len(pal._colors))]
